@@ -10,6 +10,11 @@ def spec():
         "Other": {"type": "object", "required": ["code"], "properties": {"code": st}},
         "Err": {"type": "object", "properties": {"msg": st}},
         "ItemList": {"type": "array", "items": ref("Item")},
+        # formatted strings and enums as whole bodies (annotated datetime / date / UUID / the enum class)
+        "Color": {"type": "string", "enum": ["red", "dark-blue"]},
+        "Colors": {"type": "array", "items": ref("Color")},
+        "Stamp": {"type": "string", "format": "date-time"},
+        "Stamps": {"type": "array", "items": {"type": "string", "format": "date-time"}},
         # an object without declared properties (emitted as a wrapper class) and a named array of it
         "Labels": {"type": "object", "additionalProperties": st},
         "LabelSets": {"type": "array", "items": ref("Labels")},
@@ -35,6 +40,15 @@ def spec():
         "/labels": op("getLabels", {"200": js(ref("Labels"))}),
         "/profile": op("getProfile", {"200": js(ref("Profile")), "204": {"description": "nothing stored"}}),
         "/mitems": op("getMaybeItems", {"200": js(ref("MaybeItems"))}),
+        "/color": op("getColor", {"200": js(ref("Color"))}),
+        "/colors": op("getColors", {"200": js(ref("Colors"))}),
+        "/colorsinline": op("getColorsInline", {"200": js({"type": "array", "items": ref("Color")})}),
+        "/stamp": op("getStamp", {"200": js(ref("Stamp"))}),
+        "/stamps": op("getStamps", {"200": js(ref("Stamps"))}),
+        "/when": op("getWhen", {"200": js({"type": "string", "format": "date-time"})}),
+        "/day": op("getDay", {"200": js({"type": "string", "format": "date"})}),
+        "/uid": op("getUid", {"200": js({"type": "string", "format": "uuid"})}),
+        "/uids": op("getUids", {"200": js({"type": "array", "items": {"type": "string", "format": "uuid"}})}),
         "/count": op("getCount", {"200": js(it)}),
         "/name": op("getName", {"200": js(st)}),
         "/create": op("createItem", {"201": js(ref("Item"))}, "post"),
